@@ -1166,6 +1166,11 @@ class _Ret(Exception):
         self.v = v
 
 
+class _FRet(Exception):
+    def __init__(self, v):
+        self.v = v
+
+
 class _CF:
     """AST nodes are tuples; render() gives SimpleSL text, ev() the reference semantics"""
     def __init__(self, rnd):
@@ -1174,6 +1179,8 @@ class _CF:
         self.nvar = 0
         self.nfun = 0
         self.tick = 0
+        self.funs = []
+        self.in_fn = False
 
     # ---------- generation
     def expr(self, d, vars_, cells):
@@ -1186,8 +1193,10 @@ class _CF:
         if c < 0.5:
             self.tick += 1
             return ("t", self.tick % 9 + 1, self.expr(d - 1, vars_, cells))
-        if c < 0.85:
+        if c < 0.8:
             return ("bin", r.choice(["+", "-", "*"]), self.expr(d - 1, vars_, cells), self.expr(d - 1, vars_, cells))
+        if c < 0.9 and self.funs:
+            return ("call", r.choice(self.funs), self.expr(d - 1, vars_, cells))
         return ("neg", self.expr(d - 1, vars_, cells))
 
     def cond(self, d, vars_, cells):
@@ -1199,14 +1208,14 @@ class _CF:
             return ("logic", r.choice(["&&", "||"]), self.cond(d - 1, vars_, cells), self.cond(d - 1, vars_, cells))
         return ("not", self.cond(d - 1, vars_, cells))
 
-    def block(self, d, vars_, cells, in_loop, n=None):
+    def block(self, d, vars_, cells, in_loop, n=None, top=False):
         vars_, cells = list(vars_), list(cells)
         out = []
         for _ in range(n or self.r.randint(1, 4)):
-            out.append(self.stmt(d, vars_, cells, in_loop))
+            out.append(self.stmt(d, vars_, cells, in_loop, top))
         return out
 
-    def stmt(self, d, vars_, cells, in_loop):
+    def stmt(self, d, vars_, cells, in_loop, top=False):
         r = self.r
         c = r.random()
         if c < 0.18 or not cells:
@@ -1235,10 +1244,41 @@ class _CF:
             return (kind, i, bound, body)
         if c < 0.84 and in_loop:
             return ("break",) if r.random() < 0.5 else ("continue",)
-        if c < 0.9 and d > 0:
+        if c < 0.86 and d > 0:
             return ("block", self.block(d - 1, vars_, cells, in_loop))
-        if c < 0.94:
-            return ("return", self.expr(1, vars_, cells))
+        if c < 0.88 and d > 0:
+            # a block used as a value: its last statement is the value
+            self.nvar += 1
+            v = f"v{self.nvar}"
+            st = ("setblock", v, self.block(d - 1, vars_, cells, in_loop), self.expr(1, vars_, cells))
+            vars_.append(v)
+            return st
+        if c < 0.9 and d > 0:
+            self.nvar += 1
+            x = f"x{self.nvar}"
+            return ("for", x, [self.expr(1, vars_, cells) for _ in range(r.randint(1, 3))],
+                    self.block(d - 1, vars_ + [x], cells, True))
+        if c < 0.915 and d > 0:
+            self.nvar += 1
+            x = f"x{self.nvar}"
+            kind = r.choice(["ifset", "matchtype"])
+            return (kind, x, self.expr(1, vars_, cells), self.block(d - 1, vars_ + [x], cells, in_loop, 1),
+                    self.block(d - 1, vars_, cells, in_loop, 1))
+        if c < 0.93 and d > 0 and top and not self.in_fn and not in_loop:
+            self.nfun += 1
+            f = f"f{self.nfun}"
+            self.in_fn = True
+            body = self.block(d - 1, ["p"], cells, False)
+            ret = self.expr(1, ["p"], cells)
+            self.in_fn = False
+            self.funs.append(f)
+            return ("defn", f, body, ret)
+        if c < 0.945 and d > 0:
+            return ("mod", self.block(d - 1, vars_, cells, in_loop))
+        if c < 0.955:
+            return ("discard", r.choice(["tuple", "array"]), [self.expr(1, vars_, cells) for _ in range(2)])
+        if c < 0.975:
+            return ("freturn", self.expr(1, vars_, cells)) if self.in_fn else ("return", self.expr(1, vars_, cells))
         if d > 0:
             k = r.randint(0, 2)
             arms = [(j, self.block(d - 1, vars_, cells, in_loop, 1)) for j in range(k + 1)]
@@ -1258,6 +1298,8 @@ class _CF:
             return f"t({e[1]}, {self.rex(e[2])})"
         if k == "bin":
             return f"({self.rex(e[2])} {e[1]} {self.rex(e[3])})"
+        if k == "call":
+            return f"{e[1]}({self.rex(e[2])})"
         return f"(-{self.rex(e[1])})"
 
     def rcond(self, c):
@@ -1293,6 +1335,23 @@ class _CF:
             return self.rblock(st[1])
         if k == "return":
             return f"return ({self.rex(st[1])}, (*log))"
+        if k == "freturn":
+            return f"return {self.rex(st[1])}"
+        if k == "setblock":
+            return f"{st[1]} := {{ " + "; ".join(self.rstmt(x) for x in st[2]) + f"; {self.rex(st[3])} }}"
+        if k == "for":
+            return f"for {st[1]} in [" + ", ".join(self.rex(e) for e in st[2]) + f"]~ {self.rblock(st[3])}"
+        if k == "ifset":
+            return f"if {st[1]}: int = pick({self.rex(st[2])}) {self.rblock(st[3])} else {self.rblock(st[4])}"
+        if k == "matchtype":
+            return f"match pick({self.rex(st[2])}) {{ {st[1]}: int => {self.rblock(st[3])}, => {self.rblock(st[4])}, }}"
+        if k == "defn":
+            return f"{st[1]} := (p: int) -> int {{ " + "; ".join(self.rstmt(x) for x in st[2]) + f"; return {self.rex(st[3])} }}"
+        if k == "mod":
+            return "mod " + self.rblock(st[1])
+        if k == "discard":
+            inner = ", ".join(self.rex(e) for e in st[2])
+            return f"({inner})" if st[1] == "tuple" else f"[{inner}]"
         if k == "match":
             arms = " ".join(f"({j}) => {self.rblock(b)}," for j, b in st[2])
             return f"match {self.rex(st[1])} {{ {arms} => {self.rblock(st[3])}, }}"
@@ -1315,6 +1374,17 @@ class _CF:
             a = self.ev(e[2], env, heap)
             b = self.ev(e[3], env, heap)
             return int_op(e[1], a, b)
+        if k == "call":
+            arg = self.ev(e[2], env, heap)
+            _f, body, ret, cenv = env[e[1]]
+            fenv = dict(cenv)
+            fenv["p"] = arg
+            try:
+                for st in body:
+                    self.run(st, fenv, heap)
+                return self.ev(ret, fenv, heap)
+            except _FRet as r_:
+                return r_.v
         return wrap(-self.ev(e[1], env, heap))
 
     def evc(self, c, env, heap):
@@ -1373,6 +1443,39 @@ class _CF:
         elif k == "return":
             v = self.ev(st[1], env, heap)
             raise _Ret((v, heap[0]))
+        elif k == "freturn":
+            raise _FRet(self.ev(st[1], env, heap))
+        elif k == "setblock":
+            benv = dict(env)
+            for x in st[2]:
+                self.run(x, benv, heap)
+            env[st[1]] = self.ev(st[3], benv, heap)
+        elif k == "for":
+            vals = [self.ev(e, env, heap) for e in st[2]]   # the array is built before the loop starts
+            for v in vals:
+                benv = dict(env)
+                benv[st[1]] = v
+                try:
+                    self.run_block(st[3], benv, heap)
+                except _Brk:
+                    break
+                except _Cnt:
+                    continue
+        elif k in ("ifset", "matchtype"):
+            v = self.ev(st[2], env, heap)
+            if v % 2 == 0:                      # pick(k) is the int k for even k, the float 0.5 otherwise
+                benv = dict(env)
+                benv[st[1]] = v
+                self.run_block(st[3], benv, heap)
+            else:
+                self.run_block(st[4], env, heap)
+        elif k == "defn":
+            env[st[1]] = ("fn", st[2], st[3], dict(env))   # captures by value at creation (cells stay shared: heap addresses)
+        elif k == "mod":
+            self.run_block(st[1], env, heap)
+        elif k == "discard":
+            for e in st[2]:
+                self.ev(e, env, heap)
         elif k == "match":
             v = self.ev(st[1], env, heap)
             for j, b in st[2]:
@@ -1388,10 +1491,11 @@ def fam_control_random(tier, seed, extra=()):
     out = []
     n = 200 if tier == "quick" else 3000
     rnd = random.Random(7777 * (seed + 3))
-    pre = "log := mut 0; t := (k: int, v: int) -> int { log = (*log) * 10 + k; return v }; "
+    pre = ("log := mut 0; t := (k: int, v: int) -> int { log = (*log) * 10 + k; return v }; "
+           "pick := (k: int) -> int | float { if k % 2 == 0 { return k } return 0.5 }; ")
     for k in range(n):
         g = _CF(random.Random(rnd.getrandbits(64)))
-        body = g.block(2, [], [], False, rnd.randint(3, 6))
+        body = g.block(2, [], [], False, rnd.randint(3, 7), top=True)
         cells = sorted({st[1] for st in body if st[0] == "newcell"})
         heap = [0]
         env = {}
@@ -1401,7 +1505,7 @@ def fam_control_random(tier, seed, extra=()):
             exp = (tuple(heap[env[c]] for c in cells) + (0,), heap[0])
         except _Ret as r_:
             exp = r_.v
-        except (_Brk, _Cnt):
+        except (_Brk, _Cnt, _FRet):
             continue
         tail = "((" + ", ".join(f"(*{c})" for c in cells) + (", " if cells else "") + "0), (*log))"
         prog = pre + "main := () -> any { " + "; ".join(g.rstmt(st) for st in body) + f"; return {tail} }}; main()"
